@@ -285,12 +285,16 @@ static std::vector<Dev> all_singles(const Dom &d) {
     std::vector<Dev> r; int n = (int) legal_trace(d).size();
     for (int i = 0; i < n; i++) { r.push_back({ OP_DELETE, i, 0 }); r.push_back({ OP_DUP, i, 0 }); if (i + 1 < n) r.push_back({ OP_SWAP, i, 0 }); }
     for (int i = 0; i < n; i++) for (int k = 0; k < N_SUBST; k++) r.push_back({ OP_SUBST, i, k });
-    for (int i = 0; i <= n; i++) for (int f = 0; f < F_N; f++) r.push_back({ OP_INJECT, i, f });
+    for (int i = 0; i < n; i++) for (int f = 0; f < F_N; f++) r.push_back({ OP_INJECT, i, f });
+    r.push_back({ OP_INJECT, n, F_NST });   // after the completing Finished everything is post-handshake traffic (not judged): keep one legal and one illegal sample
+    r.push_back({ OP_INJECT, n, F_KEY_UPDATE });
     for (int w = 0; w < 2; w++) for (int b : { 0, 7, 100, 255, 0x10000 | 0, 0x10000 | 9, 0x10000 | 17, 0x10000 | 31, 0x10000 | 40 }) r.push_back({ OP_FLIP, w, b });
     for (int i = 1; i < n; i++) r.push_back({ OP_CLEAR, i, 0 });
     for (int i = 0; i < n; i++) { r.push_back({ OP_WRONGKEYS, i, 0 }); if (i > 0) r.push_back({ OP_WRONGKEYS, i, 1 }); }
-    for (int i = 0; i <= n; i++) for (int k = 0; k < 3; k++) r.push_back({ OP_APPDATA, i, k });
-    for (int i = 0; i <= n; i++) for (int k = 0; k < CCS_NVAR; k++) r.push_back({ OP_CCS, i, k });
+    for (int i = 0; i < n; i++) for (int k = 0; k < 3; k++) r.push_back({ OP_APPDATA, i, k });
+    r.push_back({ OP_APPDATA, n, 1 });      // real application data right after the handshake: must be delivered
+    for (int i = 0; i < n; i++) for (int k = 0; k < CCS_NVAR; k++) r.push_back({ OP_CCS, i, k });
+    r.push_back({ OP_CCS, n, CCS_VALID });
     r.push_back({ OP_SKIP_AUTH, 0, 0 }); r.push_back({ OP_EMPTY_CERT, 0, 0 }); for (int k = 0; k < 3; k++) r.push_back({ OP_SPAN, 0, k });
     return r;
 }
@@ -446,9 +450,11 @@ static void legal_framing(Tape &t, std::vector<Item> &items) {
     //  * hello messages and anything that precedes a key change (ClientHello, ServerHello, Finished, KeyUpdate, EndOfEarlyData) end their record;
     //  * only handshake items under the same keys are coalesced; a coalesced group is not fragmented; fragments are >= 4 bytes so that a
     //    message header is never split (MatrixSSL cannot reassemble a split header; chunking of the byte stream is C18's subject).
+    static const bool header_split = getenv("C06_HEADER_SPLIT") != nullptr;   // also split message headers (legal per RFC 8446 5.1, but MatrixSSL refuses or hangs: C08/C18 subject, see findings/tls13-hang-*.md)
     for (size_t i = 0; i < items.size(); i++) {
         Item &it = items[i];
         if (it.kind == K_CCS || it.st.msg == p13::M_RAW_RECORDS) continue;
+        if (header_split && it.kind == K_HS && !it.st.coalesce && it.st.keys != p13::EP_PLAIN && t.chance(1, 2)) { it.st.max_frag = t.pick(std::vector<size_t>{ 1, 2, 3, 6, 8, 9 }); continue; }
         if (it.st.keys != p13::EP_PLAIN && t.chance(1, 3)) it.st.pad = t.pick(std::vector<size_t>{ 1, 2, 15, 16, 100, 255, 1000 });
         bool may_join = i + 1 < items.size() && it.kind == K_HS && items[i + 1].kind == K_HS && it.st.keys == items[i + 1].st.keys && it.st.keys != p13::EP_PLAIN && !it.span;
         int wt = it.wire_type();
